@@ -39,6 +39,8 @@ var leafSpecs = []leafSpec{
 	{'l', `null`, []SRule{Ru("type", `"null"`), Ru("nullable", "true"), Ru("enum", `[null, 1]`), Ru("type", `"any"`)}},
 	{'r', `@a`, []SRule{Ru("nullable", "true")}},
 	{'r', `@a | @b`, []SRule{Ru("nullable", "true")}},
+	{'r', `@a|@b`, []SRule{Ru("nullable", "true")}},
+	{'r', `@a  |	@c | @b`, nil},
 	{'o', ``, []SRule{Ru("additionalProperties", "true"), Ru("additionalProperties", "false"), Ru("additionalProperties", `"string"`), Ru("additionalProperties", `"@a"`), Ru("additionalProperties", `"any"`),
 		Ru("allOf", `"@a"`), Ru("allOf", `["@a", "@c"]`), Ru("nullable", "true"), Ru("type", `"object"`), Ru("or", `[{type: "object"}, {type: "string"}]`), Ru("type", `"@a"`), Ru("type", `"any"`)}},
 	{'a', ``, []SRule{Ru("minItems", "0"), Ru("maxItems", "0"), Ru("maxItems", big20), Ru("maxItems", maxU64), Ru("type", `"array"`), Ru("nullable", "true"), Ru("or", `["array", "@a"]`), Ru("type", `"any"`)}},
